@@ -143,9 +143,9 @@ class C02Mon(Monitor):
             for i, a in enumerate(q):
                 if (fa := _fields(a)) in _SELF_MEMO:
                     continue
-                _SELF_MEMO.add(fa)
                 V(not (a < a) and not (a > a) and a == a and a <= a and a >= a and not (a != a),
                   "C02.comparator", "comparison of an order with itself is not reflexive-equal")
+                _SELF_MEMO.add(fa)  # memoised only when the check passed: a failing pair fails in every state
             for i, a in enumerate(q):
                 fa = _fields(a)
                 for b in q[i + 1:]:
@@ -153,7 +153,6 @@ class C02Mon(Monitor):
                     w.wit.inc("comparator_pairs")
                     if key in _PAIR_MEMO:
                         continue
-                    _PAIR_MEMO.add(key)
                     ka, kb = K(a), K(b)
                     V((a < b) == (ka < kb) and (b < a) == (kb < ka), "C02.comparator",
                       "`<` on orders disagrees with price-time priority", "%s vs %s" % (fmt(a), fmt(b)))
@@ -163,6 +162,7 @@ class C02Mon(Monitor):
                     V(not (a == b) and (a != b), "C02.comparator", "distinct orders compare equal")
                     V((a <= b) == (ka < kb) and (a >= b) == (kb < ka), "C02.comparator",
                       "`<=`/`>=` inconsistent with `<`/`>`")
+                    _PAIR_MEMO.add(key)
                     if a.kind == b.kind and a.price == b.price and a.placed_at == b.placed_at:
                         w.wit.inc("comparator_id_tiebreak")
             # drain probe: what a sweep of the whole side would pop, in order
